@@ -355,6 +355,17 @@ def work_policy(chunk, st):
         st.execution(res.world, outcome=('policy', res.status, verdict), root=('policy', subset, variant, fmt), nontrivial=('policy', subset, variant, fmt))
         if verdict is None or (verdict is True) != (res.status == 0) or (verdict is False) != (res.status == 3):
             st.violation('policy:status-%s-verdict-%s' % (res.status, verdict), {'subset': subset, 'variant': variant, 'fmt': fmt, 'stdout': res.stdout[:400]})
+        # the same audit with presentation options, alone and as the only line of a -T file: the status is that of the verdict
+        for extra in ([], ['-l', 'warn'], ['-l', 'fail'], ['-b'], ['-v']):
+            for via_T in (False, True):
+                if not extra and not via_T:
+                    continue
+                srv2 = peer.Server(kex=pl['kex'], key=pl['key'], enc=pl['enc'], mac=pl['mac'], host_keys=peer.standard_host_keys(pl['key']))
+                r2 = H.audit(srv2, opts=['-n', '--skip-rate-test', '-P', path] + (['-j'] if fmt == 'json' else []) + extra, via_targets_file=via_T)
+                st.execution(r2.world, outcome=('policy-opts', r2.status, verdict), root=('policy', subset, variant, fmt, tuple(extra), via_T), nontrivial=('policy', subset, variant, fmt, tuple(extra), via_T))
+                if r2.status != res.status:
+                    st.violation('policy:status-changes-with-options:%s%s' % (' '.join(extra) or '(none)', ':-T' if via_T else ''),
+                                 {'subset': subset, 'variant': variant, 'fmt': fmt, 'status': r2.status, 'reference_status': res.status, 'verdict': verdict, 'stdout': r2.stdout[:300]})
         st.sample({'policy_case': [subset, variant, fmt], 'status': res.status, 'verdict': verdict}, cap=14)
 
 
